@@ -312,6 +312,10 @@ func (s *State) Expect(m sdk.Msg) *Expect {
 		e.Kind = kind
 		e.OKProps = append([]string{"C10", "C12"}, extra...)
 		if from != holder {
+			if from != strings.ToLower(from) && strings.ToLower(from) == holder {
+				e.dc("non-canonical-spelling-of-holder")
+				return false
+			}
 			e.fail("not-"+role, "C10")
 			return false
 		}
@@ -333,7 +337,11 @@ func (s *State) Expect(m sdk.Msg) *Expect {
 		if !s.HasPending {
 			e.fail("no-pending-owner", "C10", "C11")
 		} else if msg.From != s.Pending {
-			e.fail("not-pending-owner", "C10", "C11")
+			if msg.From != strings.ToLower(msg.From) && strings.ToLower(msg.From) == s.Pending {
+				e.dc("non-canonical-spelling-of-holder")
+			} else {
+				e.fail("not-pending-owner", "C10", "C11")
+			}
 		}
 		e.Effect = func(s *State) { s.Owner = s.Pending; s.Pending, s.HasPending = "", false }
 		e.SemDiff = "owner+pending-owner"
